@@ -55,7 +55,7 @@ theorem groupby_paths (k0 : KeyCol) (ks : List KeyCol) (hint : Bool) (n : Nat)
         intro i j hij hj
         have := hspec.1 rfl i j hij hj
         rw [← map_cons (f := fun k : KeyCol => k.data.map k.cast), keyAt_stacked (k0 :: ks) n j hrect hj,
-          keyAt_stacked (k0 :: ks) n i hrect (by omega), tupleLt_stacked (k0 :: ks) hf j i] at this
+          keyAt_stacked (k0 :: ks) n i hrect (by omega), tupleLt_stacked n (k0 :: ks) hrect hf j i hj (by omega)] at this
         rw [keyAt_data, keyAt_data]; exact this
       obtain ⟨h1, h2⟩ := sortedBranch hsorted
       refine ⟨List.range n, none, Perm.refl _, h1, Or.inl ⟨rfl, rfl⟩, ?_⟩
@@ -72,7 +72,7 @@ theorem groupby_paths (k0 : KeyCol) (ks : List KeyCol) (hint : Bool) (n : Nat)
         rw [keysAlong_data, ← hlen]; exact rect_colsAlong _ idx
       have hst := stack_ok ⟨k0.cast, idx.map (k0.data.getD · 0)⟩ (keysAlong ks idx) n hrect'
       have hsp := spans_stacked ⟨k0.cast, idx.map (k0.data.getD · 0)⟩ (keysAlong ks idx) n hrect'
-        (faithful_keysAlong hf idx)
+        (faithful_keysAlong hf hrect idx hlt)
       have e : keysAlong (k0 :: ks) idx = ⟨k0.cast, idx.map (k0.data.getD · 0)⟩ :: keysAlong ks idx := rfl
       rw [e, hst]
       simp only []
